@@ -20,13 +20,14 @@ type SEnv struct {
 	pkg    string           // package path for type names
 	nowOld string           // value of $now in the old state (for fresh())
 	qn     *int
+	depth  int // number of enclosing bound variables: bound names are derived from it, so that equal formulas are equal terms
 	funs   map[string]FunDecl // witness functions: spec name -> declared symbol (Name = SMT symbol)
 	bound  map[string]bool    // quantified variables in scope (they shadow program variables)
 	atInstr ssa.Instruction   // program point of an assert hint (values defined earlier in the same block are visible)
 }
 
 func (env *SEnv) with(name string, v Val) *SEnv {
-	n := &SEnv{vars: map[string]Val{}, act: env.act, header: env.header, pkg: env.pkg, nowOld: env.nowOld, qn: env.qn, funs: env.funs, bound: map[string]bool{}, atInstr: env.atInstr}
+	n := &SEnv{vars: map[string]Val{}, act: env.act, header: env.header, pkg: env.pkg, nowOld: env.nowOld, qn: env.qn, depth: env.depth, funs: env.funs, bound: map[string]bool{}, atInstr: env.atInstr}
 	for k, x := range env.vars {
 		n.vars[k] = x
 	}
@@ -280,7 +281,7 @@ func (fx *FX) specVal(x *SX, env *SEnv, cur, old *State) Val {
 			return Val{T: x.Name, S: Sort(f.Ret)}
 		}
 		if d, ok := e.specs.Defines[x.Name]; ok && len(d.Params) == 0 {
-			return fx.specVal(d.Body, &SEnv{vars: map[string]Val{}, pkg: d.Pkg, nowOld: env.nowOld, qn: env.qn}, cur, old)
+			return fx.specVal(d.Body, &SEnv{vars: map[string]Val{}, pkg: d.Pkg, nowOld: env.nowOld, qn: env.qn, depth: env.depth}, cur, old)
 		}
 		if x.Name == "cidUndef" {
 			return Val{T: "cid!undef", S: SCid}
@@ -301,11 +302,14 @@ func (fx *FX) specVal(x *SX, env *SEnv, cur, old *State) Val {
 		nenv := env
 		var decls []string
 		var facts []string
-		for _, vd := range x.Vars {
+		for vi, vd := range x.Vars {
 			srt, gt := e.resolveType(vd.Type, env.pkg)
 			*env.qn++
-			name := fmt.Sprintf("%s!q%d", vd.Name, *env.qn)
+			// named after the nesting depth: distinct from every enclosing binder, and identical for two evaluations of
+			// the same formula (the solvers then see one term, not two alpha-equivalent ones)
+			name := fmt.Sprintf("%s!b%d", vd.Name, env.depth+vi)
 			nenv = nenv.with(vd.Name, Val{T: name, S: srt, GT: gt})
+			nenv.depth = env.depth + vi + 1
 			decls = append(decls, fmt.Sprintf("(%s %s)", name, srt))
 			if gt != nil {
 				if ii, ok := intKind(gt); ok && vd.Type != "int" {
@@ -419,7 +423,7 @@ func (fx *FX) specVal(x *SX, env *SEnv, cur, old *State) Val {
 			hi = fx.specVal(x.A[2], env, cur, old).T
 		}
 		st := fmt.Sprintf("(mk-slice (sbase %s) (+ (soff %s) %s) (- %s %s))", base.T, base.T, lo, hi, lo)
-		if !strings.Contains(st, "!q") {
+		if !boundRe.MatchString(st) && !strings.Contains(st, "ih!") {
 			// index translation between the sub-slice and its parent (gives E-matching the parent's index term)
 			fx.ctx.Assert(fmt.Sprintf("(forall ((i Int)) (! (= (sidx %s i) (sidx %s (+ %s i))) :pattern ((sidx %s i))))", st, base.T, lo, st))
 		}
@@ -708,7 +712,7 @@ func (fx *FX) specCall(x *SX, env *SEnv, cur, old *State) Val {
 		if len(d.Params) != len(args) {
 			specErrf("define %s expects %d arguments", name, len(d.Params))
 		}
-		nenv := &SEnv{vars: map[string]Val{}, pkg: d.Pkg, nowOld: env.nowOld, qn: env.qn, act: nil}
+		nenv := &SEnv{vars: map[string]Val{}, pkg: d.Pkg, nowOld: env.nowOld, qn: env.qn, depth: env.depth, act: nil}
 		for i, p := range d.Params {
 			v := ev(i)
 			srt, gt := e.resolveType(p.Type, d.Pkg)
